@@ -1,5 +1,6 @@
 """C03 - search returns exactly the matching nodes."""
 from vlib import harness as H
+from vlib import deepchain as DC
 from vlib import texgen as G
 from vlib import oracles as O
 from vlib import docrun as D
@@ -178,7 +179,17 @@ def check_doc(nodes, src, case, res):
 
 def plan(ctx):
     shards = [('doc', PROFILES[i % len(PROFILES)], ctx.pick(300, 4000), i) for i in range(16)]
-    return [('shard_docs', shards)]
+    shards += [('doc', 'wide', ctx.pick(80, 1500), 16), ('doc', 'flat', ctx.pick(6, 100), 17)]
+    return [('shard_docs', shards),
+            ('shard_deep', [('deep', i, 8) for i in range(8)])]
+
+
+DEEP_PARTS = ('parse', 'search', 'positions')
+
+
+def shard_deep(ctx, shard):
+    # chains nested as deeply as the pinned tree can handle (vlib/deepchain.py); closed-form oracle
+    return DC.shard('C03', DEEP_PARTS, shard[1], shard[2], H.Result())
 
 
 def shard_docs(ctx, shard):
@@ -191,6 +202,8 @@ def shard_docs(ctx, shard):
 
 
 def replay(case):
+    if case.get('sub') == 'deep-chain':
+        return DC.replay('C03', DEEP_PARTS, case)
     # the syntax tree is not stored; replay re-derives it by a fresh strict check of the recorded query
     from TexSoup import TexSoup
     src = case['src']
